@@ -1250,6 +1250,10 @@ M("C10.reuse_sync_parent_outcome_dropped", ["C10"], "emitter/file/src/lib.rs",
 
         let file_size_bytes = file.len()?;""", "C10")
 
+M('sweep11.http.gzip_loop_inverted', ['C12'], 'emitter/otlp/src/client/http.rs',
+  '            if chunk.len() == 0 {\n                break;',
+  '            if chunk.len() != 0 {\n                break;', 'C12.R10:gzip-consumes-payload')
+
 # ---- round 6 (own probing of the blocking entry points): Trigger, send_or_wait, callbacks ------------------------------------------
 M("C07.wait_zero_timeout_reports_flushed", ["C07"], "batcher/src/sync.rs",
   "            if timeout == Duration::ZERO {\n                return false;", "            if timeout == Duration::ZERO {\n                return true;", "C07.R4:Trigger")
